@@ -138,6 +138,7 @@ func init() {
 				if g.Chance(1, 5) {
 					k = 0
 				}
+				extraKeys := map[string]bool{} // structure of every inserted x: near-twins put into the base must differ from ALL of them
 				for j := 0; j < k; j++ {
 					x := c08Rule(g)
 					if strings.Contains(x, "badfilter") {
@@ -150,6 +151,7 @@ func init() {
 					if _, err = rules.NewNetworkRule(withBadfilter(x), 1); err != nil {
 						continue
 					}
+					extraKeys[fieldsKey(xr)] = true
 					for _, t := range []string{x, withBadfilter(x)} {
 						p := g.Intn(len(els) + 1)
 						els = append(els[:p], append([]el{{t, true}}, els[p:]...)...)
@@ -157,7 +159,9 @@ func init() {
 					// sometimes also a near-twin y of x in the base part: it must stay effective
 					if g.Chance(1, 2) {
 						y := nearTwin(g, x)
-						if yr, err := rules.NewNetworkRule(y, 1); err == nil && fieldsKey(yr) != fieldsKey(xr) && !strings.Contains(y, "badfilter") {
+						if yr, err := rules.NewNetworkRule(y, 1); err == nil && !extraKeys[fieldsKey(yr)] && !strings.Contains(y, "badfilter") {
+							// y joins the base: later extras must be distinct from it as well
+							keys[fieldsKey(yr)] = true
 							p := g.Intn(len(els) + 1)
 							els = append(els[:p], append([]el{{y, false}}, els[p:]...)...)
 						}
